@@ -107,17 +107,7 @@ Qed.
 Lemma collapse_nvars_ok (cs : list cone) : total_nvars (collapse cs) = total_nvars cs.
 Proof. rewrite !total_nvars_sumv. unfold collapse. rewrite collapse_go_sum. cbn [accN]. lia. Qed.
 
-(** normal form: no empty cone, no collapsible cone except isolated NonnegC, no two adjacent NonnegC *)
-Fixpoint nf (cs : list cone) : Prop :=
-  match cs with
-  | [] => True
-  | c :: r =>
-      nvars c <> 0%N /\
-      (match c with
-       | NonnegC _ => match r with NonnegC _ :: _ => False | _ => True end
-       | _ => collapsible c = None
-       end) /\ nf r
-  end.
+Notation nf := (@cones_normal T).
 
 Lemma collapse_go_nf_id (cs : list cone) :
   nf cs ->
@@ -171,6 +161,12 @@ Lemma collapse_idempotent_ok (cs : list cone) : collapse (collapse cs) = collaps
 Proof.
   unfold collapse. apply collapse_go_nf_id. apply (collapse_go_nf cs None I).
 Qed.
+Lemma collapse_identity_iff_ok (cs : list cone) : collapse cs = cs <-> cones_normal cs.
+Proof.
+  split.
+  - intros E. rewrite <- E. unfold collapse. apply (collapse_go_nf cs None I).
+  - intros H. unfold collapse. apply collapse_go_nf_id. exact H.
+Qed.
 End Collapse.
 
 (** ** witnesses (binary64) *)
@@ -187,6 +183,18 @@ Proof. exists f2_witness. vm_compute. reflexivity. Qed.
 Lemma f2_witness_now_err :
   load OpsF infinity 0x1.fffffffffffffp+1023%float None f2_witness = LoadErr.
 Proof. vm_compute. reflexivity. Qed.
+
+Lemma cap_b_identity_ok {T} (O : Ops T) (infbound : T) (b : list T) :
+  Forall (fun x => ltb O infbound x = false) b -> cap_b O infbound b = b.
+Proof.
+  intros F. unfold cap_b. induction F as [|x l Hx F IH]; cbn [map]; [reflexivity|].
+  rewrite Hx, IH. reflexivity.
+Qed.
+Lemma b_literal_refuted_ok : stmt_b_literal_refuted.
+Proof.
+  exists [1e300%float]. intros H. vm_compute in H. injection H as H.
+  apply (f_equal Prim2SF) in H. vm_compute in H. discriminate H.
+Qed.
 
 Lemma cones_literal_refuted_ok : stmt_cones_literal_refuted.
 Proof.
